@@ -375,3 +375,64 @@ func dupSet(r *vl.Rng, s *idlgen.Schema, sidx int, v *values.Value) (*values.Val
 	st.set(n)
 	return y, st.t.Elem, e, true
 }
+
+// laterElement returns (x, y): in one list / set / map (base-typed keys) of struct-typed elements with at least two
+// elements, y differs from x in ONE leaf of an element that is not the first; every element before it is equal on both
+// sides (and, with nilLead, nil on both sides). Shared through op ES the equal elements become the same pointer.
+func laterElement(r *vl.Rng, s *idlgen.Schema, sidx int, v *values.Value, nilLead bool) (x, y *values.Value, ok bool) {
+	x = v.Clone()
+	y = v.Clone()
+	xs, ys := sites(s, sidx, x), sites(s, sidx, y)
+	var idx []int
+	for i := range ys {
+		c := ys[i]
+		if c.inKey || c.v.IsNil() || c.t.Elem == nil || c.t.Elem.Kind != idlgen.RStruct {
+			continue
+		}
+		if c.t.Kind == idlgen.RMap && c.t.Key.Kind == idlgen.RStruct {
+			continue
+		}
+		if lenOf(c.v) >= 2 {
+			idx = append(idx, i)
+		}
+	}
+	if len(idx) == 0 {
+		return nil, nil, false
+	}
+	i := idx[r.Intn(len(idx))]
+	cy, cx := ys[i], xs[i]
+	n := lenOf(cy.v)
+	elem := func(c site, j int) (*values.Value, func(*values.Value)) {
+		if c.t.Kind == idlgen.RMap {
+			return c.v.E[2*j+1], func(n *values.Value) { c.v.E[2*j+1] = n }
+		}
+		return c.v.E[j], func(n *values.Value) { c.v.E[j] = n }
+	}
+	for try := 0; try < 8; try++ {
+		j := 1 + r.Intn(n-1)
+		ey, _ := elem(cy, j)
+		if ey.IsNil() {
+			continue
+		}
+		var leaves []site
+		walk(s, cy.t.Elem, nil, ey, func(*values.Value) {}, false, 0, &leaves)
+		st := pick(r, leaves[1:], func(c site) bool { return c.t.IsBase() && !c.v.IsNil() && !c.inKey })
+		if st == nil {
+			continue
+		}
+		st.set(otherLeaf(r, st.t, st.v))
+		if nilLead {
+			if cy.t.Kind == idlgen.RSet {
+				return nil, nil, false
+			}
+			for p := 0; p < j; p++ {
+				_, sy := elem(cy, p)
+				_, sx := elem(cx, p)
+				sy(values.Nil())
+				sx(values.Nil())
+			}
+		}
+		return x, y, true
+	}
+	return nil, nil, false
+}
